@@ -26,7 +26,7 @@ class IncarnationFailure(Exception):
     """The incarnation did not deliver a report (hang, crash of the interpreter)."""
 
 
-def run_incarnation(plan: dict, hashseed: int, timeout_s: int = 600) -> dict:
+def run_incarnation(plan: dict, hashseed: int, timeout_s: int = 600, xla_cache: str | None = None) -> dict:
     d = tempfile.mkdtemp(prefix="inc-", dir=scratch_root())
     try:
         plan = dict(plan)
@@ -49,6 +49,11 @@ def run_incarnation(plan: dict, hashseed: int, timeout_s: int = 600) -> dict:
             "PYTHONFAULTHANDLER": "1",
             "TF_CPP_MIN_LOG_LEVEL": "3",
         }
+        # XLA executables compiled earlier in the same session (lcm wraps new jax.jit objects around identical
+        # computations in every call and period) are re-used across the incarnations of the session
+        cc = xla_cache if os.environ.get("DSIM_XLA_CACHE", "on") != "off" else None
+        if cc:
+            env.update({"JAX_COMPILATION_CACHE_DIR": cc, "JAX_PERSISTENT_CACHE_MIN_COMPILE_TIME_SECS": "0", "JAX_PERSISTENT_CACHE_MIN_ENTRY_SIZE_BYTES": "0"})
         dbg = os.environ.get("DSIM_DEBUG_IDS")  # diagnostics for the harness author only
         if dbg:
             env["DSIM_DEBUG_IDS"] = dbg
